@@ -87,6 +87,43 @@ func H_C07_compile() {
 	e1, err1 := Compile(expr)
 	e2, err2 := Compile(expr)
 	vrtMonitor(false)
+	if !vrtSymbolic() && err1 == nil {
+		// natively: concurrent compilations (and one-shot searches) of this and of
+		// a second expression must agree with the sequential result
+		other := "'o\\'ther\\\\' == \"k\\u0041\""
+		want, werr := e1.Search(nil)
+		wantO, werrO := Search(other, nil)
+		var wg sync.WaitGroup
+		bad := make([]bool, 8)
+		for g := 0; g < 8; g++ {
+			wg.Add(1)
+			go func(g int) {
+				defer wg.Done()
+				for i := 0; i < 200; i++ {
+					if (g+i)%2 == 0 {
+						e, err := Compile(expr)
+						if err != nil {
+							bad[g] = true
+							continue
+						}
+						r, rerr := e.Search(nil)
+						if !sameOutcome(want, werr, r, rerr, false) {
+							bad[g] = true
+						}
+					} else {
+						r, rerr := Search(other, nil)
+						if !sameOutcome(wantO, werrO, r, rerr, false) {
+							bad[g] = true
+						}
+					}
+				}
+			}(g)
+		}
+		wg.Wait()
+		for _, b := range bad {
+			vrtAssert(!b, "a concurrent Compile / Search returned a different outcome than run alone")
+		}
+	}
 	vrtAssert(vrtEventCount("sharedwrite") == 0, "Compile wrote to shared state")
 	vrtAssert((err1 == nil) == (err2 == nil), "Compile is deterministic")
 	if err1 == nil {
